@@ -893,13 +893,27 @@ def retain_iteration(props):
                    'an element for which the predicate answered true must stay untouched', it)
         else:
             E.iter_classes['removed'] += 1
-            ok = bool(reads) and st.zone.entails_eq(reads[0][2], idx) and len(lens) == 1
+            ms = st.maps[mid]
+            z = st.zone
+
+            def orig(t, f):
+                while isinstance(t, tuple) and t and t[0] == 'usermod':
+                    t = t[1]
+                return tag_eq(z, t, stored(mid, idx, f))
+            gone = [e for e in reads if orig(e[3][0], 0)]
+            ok = len(gone) == 1 and len(lens) == 1
             it_req(E, props, 'POL', ok, nm + ':removed',
-                   'an element for which the predicate answered false must be moved out and len decreased by one', it)
-            ok2 = (len(reads) == 1 and not writes) or (
-                len(reads) == 2 and len(writes) == 1 and st.zone.entails_eq(writes[0][2], idx)
-                and tag_eq(st.zone, writes[0][3], reads[1][3]))
-            it_req(E, props, 'OUT', ok2, nm + ':removed',
+                   'the element for which the predicate answered false must be moved out / destroyed (exactly once) '
+                   'and len decreased by one', it)
+            # the hole is closed by the former last element (or the removed one was the last); nothing else moves
+            if z.entails_eq(idx, ms.len):
+                ok2 = True
+            elif z.entails_lt(idx, ms.len):
+                ok2 = tag_eq(z, slots.content(st, mid, idx)[0], stored(mid, ms.len, 0))
+            else:
+                ok2 = False
+            others = [i for (i, _) in ms.contents if not z.entails_eq(i, idx) and z.entails_lt(i, ms.len)]
+            it_req(E, props, 'OUT', ok2 and not others and len(reads) <= 2, nm + ':removed',
                    'the hole must be closed by moving the last live element into it (nothing else may move)', it)
     return hook
 
